@@ -17,8 +17,10 @@ package c04
 //	q carries the same values as p: the two graphs are isomorphic (names, kinds, parsers, executable /
 //	restricted / suggestion flags, ordered children, redirect structure - pktgen.DumpTree).
 //
-// A second family builds graphs with redirects to DETACHED nodes through the brigodier API and applies the
-// same oracle with the API value as p.
+// Wherever the same graph can also be BUILT through the brigodier API (no redirect cycle, one root, no root as a
+// child) that value goes through the same oracle: it does not depend on the decoder, so a flag or an edge that
+// Decode and Encode drop symmetrically shows up as a difference between the built and the decoded graph. A few
+// hand-written API graphs with redirects to DETACHED nodes (the shape of seeded/C04-3's demo) come on top.
 //
 // Not asserted: that e1 equals the generator's wire bytes. The order in which a graph's nodes are numbered is
 // the encoder's choice, the statement only fixes it from the proxy's own encoding onwards (counted as a class).
@@ -316,29 +318,99 @@ var apiGraphs = map[string]func() *brigodier.RootCommandNode{
 var apiGraphNames = []string{"alias->detached-leaf", "alias->detached-with-children", "alias->detached->detached",
 	"two-aliases->same-detached", "nested-alias->detached", "detached-redirects-back-into-tree"}
 
-// runGraph applies the statement to one graph value in one cell.
+// build constructs the graph through the brigodier API (builders for the nodes, AddChild for the edges), so that
+// the value does not depend on the decoder under test. Not every wire graph can be built that way: a redirect
+// target must exist before the redirecting node is built (no redirect cycles, no self-redirect), only node 0 may
+// be a root, and a root cannot be listed as a child.
+func (g *graphCase) build() *brigodier.RootCommandNode {
+	n := len(g.Nodes)
+	if g.Root != 0 || g.Nodes[0].Typ != 0 {
+		return nil
+	}
+	for i, nd := range g.Nodes {
+		if i > 0 && nd.Typ == 0 {
+			return nil
+		}
+		for _, ch := range nd.Children {
+			if g.Nodes[ch].Typ == 0 {
+				return nil
+			}
+		}
+	}
+	built := make([]brigodier.CommandNode, n)
+	root := &brigodier.RootCommandNode{}
+	built[0] = root
+	for left, progress := n-1, true; left > 0; {
+		if !progress {
+			return nil // redirect cycle
+		}
+		progress = false
+		for i := 1; i < n; i++ {
+			nd := g.Nodes[i]
+			if built[i] != nil || (nd.Redirect >= 0 && built[nd.Redirect] == nil) {
+				continue
+			}
+			if nd.Typ == 1 {
+				b := brigodier.Literal(nd.Name)
+				if nd.Exec {
+					b.Executes(packet.PlaceholderCommand)
+				}
+				if nd.Redirect >= 0 {
+					b.Redirect(built[nd.Redirect])
+				}
+				built[i] = b.Build()
+			} else {
+				b := brigodier.Argument(nd.Name, brigodier.Bool)
+				if nd.Exec {
+					b.Executes(packet.PlaceholderCommand)
+				}
+				if nd.Redirect >= 0 {
+					b.Redirect(built[nd.Redirect])
+				}
+				built[i] = b.Build()
+			}
+			left--
+			progress = true
+		}
+	}
+	for i, nd := range g.Nodes {
+		for _, ch := range nd.Children {
+			built[i].AddChild(built[ch])
+		}
+	}
+	return root
+}
+
+// runGraph applies the statement to the graph value(s) of one case in one cell.
 func (h *H) runGraph(c pktgen.Cell, g *graphCase) {
+	r := h.r
+	if g.API != "" {
+		r.Class("graph:api-built, redirect to a detached node")
+		h.graphOracle(c, g, "api", &packet.AvailableCommands{RootNode: apiGraphs[g.API]()}, nil)
+		return
+	}
+	wire := g.wire(c)
+	r.Eval(1)
+	if y, left, err, pv := decode(c, wire); pv != nil || err != nil || left != 0 {
+		r.Class("graph:wire graph not accepted by the decoder (C05's domain)")
+	} else {
+		r.Class(fmt.Sprintf("graph:wire graph of %d node(s) accepted", len(g.Nodes)))
+		h.graphOracle(c, g, "decoded-from-wire", y.(*packet.AvailableCommands), wire)
+	}
+	if root := g.build(); root != nil {
+		r.Class(fmt.Sprintf("graph:same graph of %d node(s) built through the API", len(g.Nodes)))
+		h.graphOracle(c, g, "built-through-api", &packet.AvailableCommands{RootNode: root}, nil)
+	}
+}
+
+// graphOracle: Encode(p) = e1; Decode(e1) = q consumes everything and is the same graph; Encode(q) == e1.
+func (h *H) graphOracle(c pktgen.Cell, g *graphCase, how string, p *packet.AvailableCommands, wire []byte) {
 	r := h.r
 	const tn = "packet.AvailableCommands"
 	r.Eval(1)
 	vio := func(key, detail string) {
-		r.Violation(tn+"/graph/"+key, fmt.Sprintf("%s %s\n  %s", c.String(), g.String(), detail),
+		r.Violation(tn+"/graph/"+key, fmt.Sprintf("%s %s (value %s)\n  %s", c.String(), g.String(), how, detail),
 			replay{Cell: c.String(), What: key, Graph: g})
-	}
-	var p *packet.AvailableCommands
-	var wire []byte
-	if g.API != "" {
-		p = &packet.AvailableCommands{RootNode: apiGraphs[g.API]()}
-		r.Class("graph:api-built, redirect to a detached node")
-	} else {
-		wire = g.wire(c)
-		y, left, err, pv := decode(c, wire)
-		if pv != nil || err != nil || left != 0 {
-			r.Class("graph:wire graph not accepted by the decoder (C05's domain)")
-			return
-		}
-		p = y.(*packet.AvailableCommands)
-		r.Class(fmt.Sprintf("graph:wire graph of %d node(s) accepted", len(g.Nodes)))
 	}
 	r.Nontrivial(1)
 	dumpP := pktgen.DumpTree(p.RootNode)
